@@ -443,7 +443,7 @@ func rangeMain(args []string) {
 			c.Rules = []gRule{{F: "y", Desc: rng.Intn(2) == 0}} // ties on y, no id among the rules
 			c.IDs = append([]string{"zz"}, ids8[:nres]...)
 			rng.Shuffle(len(c.IDs), func(i, j int) { c.IDs[i], c.IDs[j] = c.IDs[j], c.IDs[i] })
-			c.IDs = c.IDs[:9+rng.Intn(len(c.IDs)-9)]
+			c.IDs = c.IDs[:5+(i/4)%(len(c.IDs)-4)] // every length from 5 up to the whole list in turn
 			stt.class("long-id-list")
 		}
 		c.Size = 1 + rng.Intn(4)
